@@ -11,7 +11,10 @@ import (
 )
 
 func c04bWs(r *h.RNG) string {
-	return r.Pick([]string{"", "", "", " ", " ", "  ", "\n", "\t", " /* c */ ", "/**/"})
+	if r.Chance(1) {
+		return "/**/" // K-C04B-13 where it stands between two tokens of a prelude
+	}
+	return r.Pick([]string{"", "", "", " ", " ", "  ", "\n", "\t", " /* c */ ", " /**/ "})
 }
 func c04bWs1(r *h.RNG) string {
 	return r.Pick([]string{" ", " ", " ", "  ", "\n", "\t ", " /* c */ "})
@@ -198,7 +201,9 @@ func c04bBgPos(r *h.RNG) string {
 			return p
 		}
 		f := strings.Fields(strings.ToLower(p))
-		isKw := func(s string) bool { return s == "left" || s == "right" || s == "top" || s == "bottom" || s == "center" }
+		isKw := func(s string) bool {
+			return s == "left" || s == "right" || s == "top" || s == "bottom" || s == "center"
+		}
 		isH := func(s string) bool { return s == "left" || s == "right" }
 		isV := func(s string) bool { return s == "top" || s == "bottom" }
 		ok := false
